@@ -7,6 +7,18 @@ VerifyCallback and VerifyContentError over every state a listed path can be in; 
 `Missing.missingCall`, and the specification (`SpecOkFs`, `owed`, `badFiles`, `mismatches`,
 `overlapping`).  Real side: `Torrent.verify()` on a tmpfs tree damaged in the same way.
 
+History of the Torrent object (`case['origin']`): 'loaded' (metainfo assigned, `path` None — as
+read from a .torrent), 'path-attr' (the same object with its `path` attribute pointing to an intact
+original elsewhere), and through the public API only — 'created' (`Torrent(path=original)` +
+`generate()` in this session), 'reread' (created, dumped, `read_stream`), 'copy' (`created.copy()`),
+'reassigned' (created from one original, `path` re-assigned to a second one, `generate()` again).
+Directory given to verify() (`case['verify_as']`): 'direct' (a copy of the content, possibly with a
+renamed top directory), 'relative' (the same, spelled relative to the working directory),
+'symlink-top' (through a symbolic link to the top directory), 'original' (`Torrent.path` itself).
+Reporting interval (`case['interval']`, `case['clock']`): 0 / tiny / 1 / huge with the real clock,
+or any integer interval with `time_monotonic` of torf._generate pinned to `case['clock']` (one value
+per collected piece: frozen, stepping, jumping, running backwards) — one hasher thread then.
+
 State of a listed path (`case['disk'][i]`):
   'ok' | 'missing' | n                         regular file (n = actual size)
   {'k':'file','size':n,'how':'symlink'}        symbolic link to a regular file of n bytes
@@ -32,7 +44,8 @@ from harness.impl import content
 FLIP = 1 << 39
 
 RULE = ('case = (piece length, file sizes, per-file path state, flipped byte positions, single/multi-file, '
-        'path kind, threads, callback yes/no); path state = regular file ok / missing / other size / symlink '
+        'path kind, threads, callback yes/no, history of the Torrent object, spelling of the verified directory, '
+        'reporting interval and clock); path state = regular file ok / missing / other size / symlink '
         'to a file / not stat-able with open() failing ENOENT, ENOTDIR, ELOOP, ENAMETOOLONG, EACCES / '
         'stat-able with open() failing EISDIR (directory), ENXIO (socket), EACCES, EMFILE, EIO / readable '
         'with an OSError at the read covering a byte offset; damaged trees: every subset of <=3 files '
@@ -140,7 +153,7 @@ class _PathProxy:
         self._plan = plan
 
     def _nostat(self, p):
-        st = self._plan.get(os.path.normpath(str(p)))
+        st = self._plan.get(os.path.realpath(str(p)))
         return st['open'] if st is not None and st.get('nostat') else None
 
     def __getattr__(self, name):
@@ -187,7 +200,7 @@ class _Inject:
         plan = self.plan
 
         def _open(p, mode='r', *a, **k):
-            st = plan.get(os.path.normpath(str(p)))
+            st = plan.get(os.path.realpath(str(p)))
             if st is not None and st.get('open') is not None:
                 raise OSError(st['open'], os.strerror(st['open']), str(p))
             fh = builtins.open(p, mode, *a, **k)
@@ -275,11 +288,11 @@ def _make(wd, c):
             with open(target, 'wb') as fh:
                 fh.write(data)
             if k == 'readerr':
-                plan[os.path.normpath(p)] = {'read': (st['off'], st['errno'])}
+                plan[os.path.realpath(p)] = {'read': (st['off'], st['errno'])}
             elif k == 'gone':
-                plan[os.path.normpath(p)] = {'nostat': True, 'open': st['errno']}
+                plan[os.path.realpath(p)] = {'nostat': True, 'open': st['errno']}
             elif k == 'noopen':
-                plan[os.path.normpath(p)] = {'open': st['errno']}
+                plan[os.path.realpath(p)] = {'open': st['errno']}
             now.append(data if k in ('ok', 'file', 'readerr') else None)
             continue
         now.append(None)
@@ -309,6 +322,102 @@ def _make(wd, c):
             with open(d, 'wb') as fh:
                 fh.write(b'not a directory')
     return files, orig, now, top, plan, socks
+
+
+def _make_intact(root, c):
+    """an intact original of the content at root/T (what `Torrent.path` points to)"""
+    _rm(root)
+    top = os.path.join(root, 'T')
+    os.makedirs(root)
+    if c['single']:
+        with open(top, 'wb') as fh:
+            fh.write(_good_bytes(c, 0, c['sizes'][0]))
+        return top
+    os.makedirs(top)
+    for i, (p, n) in enumerate(zip(c['paths'], c['sizes'])):
+        if len(p[-1]) > 255:
+            continue                                  # cannot exist
+        fp = os.path.join(top, *p)
+        os.makedirs(os.path.dirname(fp), exist_ok=True)
+        with open(fp, 'wb') as fh:
+            fh.write(_good_bytes(c, i, n))
+    return top
+
+
+API_ORIGINS = ('created', 'reread', 'copy', 'reassigned')
+
+
+def _api_capable(c):
+    """can the torrent of this case be made by Torrent(path=…).generate()? (torf sorts the files,
+    never lists empty ones and wants piece sizes that are multiples of 16 KiB)"""
+    return (c['L'] % 16384 == 0 and all(n >= 1 for n in c['sizes']) and
+            all(len(p) == 1 for p in c['paths']) and c['paths'] == sorted(c['paths']))
+
+
+def _torrent(torf, wd, c, files, pieces):
+    """the Torrent object with the history the case asks for; returns (torrent, Torrent.path or None)"""
+    import io
+    import pathlib
+    origin = c.get('origin', 'loaded')
+    L = c['L']
+    if origin in API_ORIGINS:
+        otop = _make_intact(os.path.join(wd, 'orig'), c)
+        t = torf.Torrent(path=otop, piece_size=L)
+        t.generate(threads=1)
+        if [f.size for f in t.files] != c['sizes'] or t.metainfo['info']['pieces'] != pieces:
+            raise RuntimeError(f'Torrent(path=…).generate() made another torrent than the case describes: '
+                               f'{[f.size for f in t.files]}')
+        if origin == 'reread':
+            t = torf.Torrent.read_stream(io.BytesIO(t.dump()))
+        elif origin == 'copy':
+            t = t.copy()
+        elif origin == 'reassigned':
+            otop = _make_intact(os.path.join(wd, 'orig2'), c)
+            t.path = otop               # (re-assigning the path resets the piece size)
+            t.piece_size = L
+            t.generate(threads=1)
+            if [f.size for f in t.files] != c['sizes'] or t.metainfo['info']['pieces'] != pieces:
+                raise RuntimeError('re-assigning Torrent.path made another torrent than the case describes')
+        tpath = None if t.path is None else str(t.path)
+        assert (tpath is None) == (origin in ('reread', 'copy'))
+        return t, tpath
+    t = content.make_torrent(torf, wd, 'T', files, L, single=c['single'], with_path=False)
+    t.metainfo['info']['pieces'] = pieces
+    if L % 16384 != 0:
+        t.validate = lambda: None   # small piece lengths: skip only the validate() gate
+    tpath = None
+    if origin == 'path-attr':
+        tpath = _make_intact(os.path.join(wd, 'orig'), c)
+        t._path = pathlib.Path(tpath)
+        if any(len(p[-1]) > 255 for p in c['paths']):
+            t.validate = lambda: None   # the original cannot hold a name the file system refuses
+    return t, tpath
+
+
+class _PinnedClock:
+    """`time_monotonic` of torf._generate returns the planned values, one per call"""
+
+    def __init__(self, nows):
+        self.nows = nows
+
+    def __enter__(self):
+        if self.nows is None:
+            return self
+        from torf import _generate as G
+        self._G, self._saved = G, G.time_monotonic
+        it = iter(self.nows)
+        last = [0]
+
+        def clock():
+            last[0] = next(it, last[0] if not self.nows else self.nows[-1])
+            return last[0]
+        G.time_monotonic = clock
+        return self
+
+    def __exit__(self, *a):
+        if self.nows is not None:
+            self._G.time_monotonic = self._saved
+        return False
 
 
 def _exc_obs(torf, e, index_of):
@@ -341,11 +450,18 @@ def _run_chunk(cases):
             L = c['L']
             stream = b''.join(orig)
             pieces = b''.join(common.sha1(stream[i:i + L]) for i in range(0, len(stream), L))
-            t = content.make_torrent(torf, wd, 'T', files, L, single=c['single'], with_path=False)
-            t.metainfo['info']['pieces'] = pieces
-            if L % 16384 != 0:
-                t.validate = lambda: None   # small piece lengths: skip only the validate() gate
+            t, tpath = _torrent(torf, wd, c, files, pieces)
+            obs['tpath'] = tpath
             path = top
+            va = c.get('verify_as', 'direct')
+            if va == 'relative':
+                path = os.path.relpath(top)
+            elif va == 'symlink-top':
+                path = os.path.join(wd, 'toplink')
+                _rm(path)
+                os.symlink(top, path)
+            elif va == 'original':
+                path = tpath
             if c['pathkind'] == 'dir-for-single':
                 path = os.path.join(wd, 'adir')
                 os.makedirs(path, exist_ok=True)
@@ -365,8 +481,9 @@ def _run_chunk(cases):
                     calls.append({'same_torrent': tor is t, 'done': done, 'total': total, 'piece': pi,
                                   'hash': ph, 'exc': None if exc is None else _exc_obs(torf, exc, index_of)})
                 try:
-                    with _Inject(plan):
-                        r = t.verify(path, threads=c['threads'], callback=cb if mode == 'cb' else None, interval=0)
+                    with _Inject(plan), _PinnedClock(c.get('clock')):
+                        r = t.verify(path, threads=c['threads'], callback=cb if mode == 'cb' else None,
+                                     interval=c.get('interval', 0))
                     obs[mode] = {'ok': r}
                 except BaseException as e:  # noqa
                     obs[mode] = {'error': _exc_obs(torf, e, index_of)}
@@ -530,6 +647,46 @@ def _gen_damage(rng, L, sizes, kind, paths=None, single=False, dirsize=40):
     return disk, flips
 
 
+PATH_ORIGINS = ('path-attr', 'created', 'reassigned')       # origins whose Torrent.path is set
+
+
+def _dress(rng, c):
+    """history of the Torrent object, spelling of the verified directory, reporting interval"""
+    r = rng.random()
+    if _api_capable(c) and r < 0.75:
+        c['origin'] = rng.choice(API_ORIGINS)
+    elif r < 0.45:
+        c['origin'] = 'path-attr'
+    else:
+        c['origin'] = 'loaded'
+    intact = all(st == 'ok' for st in c['disk']) and not c['flips']
+    if c['pathkind'] != 'normal':
+        c['verify_as'] = 'direct'
+    elif intact and c['origin'] in PATH_ORIGINS and rng.random() < 0.4:
+        c['verify_as'] = 'original'
+    else:
+        c['verify_as'] = rng.choice(['direct', 'direct', 'direct', 'relative', 'symlink-top'])
+    r = rng.random()
+    pieces = -(-sum(c['sizes']) // c['L'])
+    if r < 0.4:
+        c['interval'], c['clock'] = 0, None
+    elif r < 0.6:
+        c['interval'], c['clock'] = rng.choice([1e-9, 1, 1, 1e9]), None
+    else:
+        # pinned clock: any integer interval, any sequence of clock values; one hasher thread so that
+        # the pieces are collected in piece order
+        c['threads'] = 1
+        c['interval'] = rng.choice([0, 1, 2, 3, 5, 1000, 1000])
+        kind = rng.choice(['frozen', 'step', 'jumps', 'any'])
+        t0 = rng.choice([0, 5, 100])
+        nows = []
+        for _ in range(pieces + 2):
+            nows.append(t0)
+            t0 += {'frozen': 0, 'step': 1, 'jumps': rng.choice([0, 0, 1, 2, 7]), 'any': rng.randint(-3, 4)}[kind]
+        c['clock'] = nows
+    return c
+
+
 ABSTRACT = ['gone', 'noopen', 'noopen-wrong', 'readerr0', 'readerr-mid', 'readerr-end']
 
 
@@ -555,10 +712,10 @@ def gen_cases(ctx, scale=1.0):
             disk, flips = _gen_damage(rng, L, sizes, kind, paths, single, dirsize)
         else:
             flips = []
-        cases.append({'L': L, 'sizes': sizes, 'disk': disk, 'flips': flips, 'single': single,
-                      'pathkind': pathkind, 'threads': threads, 'kind': kind,
-                      'paths': paths, 'cseed': rng.randrange(1 << 30),
-                      'dirname': rng.choice(['T', 'T', 'renamed'])})
+        cases.append(_dress(rng, {'L': L, 'sizes': sizes, 'disk': disk, 'flips': flips, 'single': single,
+                                  'pathkind': pathkind, 'threads': threads, 'kind': kind,
+                                  'paths': paths, 'cseed': rng.randrange(1 << 30),
+                                  'dirname': rng.choice(['T', 'T', 'renamed'])}))
 
     # small scopes, every layout with one damage pattern each of several kinds
     scope = list(layouts.exhaustive([2, 3], 3)) if not ctx.thorough else \
@@ -605,15 +762,19 @@ def gen_cases(ctx, scale=1.0):
         disk = ['ok'] * len(sizes)
         disk[i] = {'k': 'gone', 'errno': errno.ENAMETOOLONG, 'how': 'toolong'}
         add(L, sizes, 'fs', threads=rng.choice([1, 2]), paths=paths, disk=disk)
-    # real piece lengths through the unpatched public API (validate() runs)
-    for _ in range(int(ctx.n(100, 2400) * scale)):
+    # real piece lengths through the unpatched public API (validate() runs); half of the layouts are
+    # such that torf itself can create the torrent from the content (flat sorted names, no empty file)
+    for k in range(int(ctx.n(160, 3200) * scale)):
         L = 16384 * rng.choice([1, 1, 2])
         n = rng.randint(1, 6)
         sizes = [max(0, rng.choice([0, 1, L - 1, L, L + 1, rng.randint(0, 2 * L), rng.randint(0, L // 16)]))
                  for _ in range(n)]
+        if k % 2:
+            sizes = [max(1, x) for x in sizes]
         if sum(sizes) == 0:
             sizes[0] = L + 1
-        add(L, sizes, rng.choice(['intact', 'flip', 'files', 'both', 'fs', 'fs']), threads=rng.choice([1, 2, 4]))
+        add(L, sizes, rng.choice(['intact', 'flip', 'files', 'files', 'both', 'fs', 'fs']), threads=rng.choice([1, 2, 4]),
+            nested=not k % 2)
     # single-file torrents and path-kind mismatches
     for _ in range(int(ctx.n(160, 3200) * scale)):
         L = rng.choice([2, 3, 8, 16384])
@@ -656,7 +817,8 @@ def _norm_model_exc(e, errno_of=None, piece=None):
 def _key(c):
     import json
     return (c['L'], tuple(c['sizes']), tuple(json.dumps(d, sort_keys=True) for d in c['disk']),
-            tuple(map(tuple, c['flips'])), c['single'], c['pathkind'])
+            tuple(map(tuple, c['flips'])), c['single'], c['pathkind'], c.get('origin', 'loaded'),
+            c.get('verify_as', 'direct'), c.get('interval', 0), tuple(c.get('clock') or ()))
 
 
 def evaluate(ctx, drv, cases):
@@ -664,8 +826,11 @@ def evaluate(ctx, drv, cases):
     for c in cases:
         pid = c['pathkind'] not in ('file-for-multi', 'nothing-for-multi') if not c['single'] else \
             c['pathkind'] == 'dir-for-single'
-        reqs.append({'op': 'c02.verifyfs', 'L': c['L'], 'sizes': c['sizes'], 'disk': c['disk'], 'flips': c['flips'],
-                     'single': c['single'], 'pathIsDir': pid})
+        pinned = c.get('clock') is not None
+        reqs.append({'op': 'c02.verifycall', 'L': c['L'], 'sizes': c['sizes'], 'disk': c['disk'], 'flips': c['flips'],
+                     'single': c['single'], 'pathIsDir': pid,
+                     'tpath': '/original/T' if c.get('origin', 'loaded') in PATH_ORIGINS else None,
+                     'interval': c.get('interval', 0) if pinned else 0, 'clock': c['clock'] if pinned else []})
     # on the two classic states the extended model must be the classic one (theorem C02_fs_conservative)
     legacy_idx = [i for i, c in enumerate(cases) if _legacy(c)]
     replies = drv.run(reqs + [dict(reqs[i], op='c02.verify') for i in legacy_idx])
@@ -686,6 +851,13 @@ def evaluate(ctx, drv, cases):
             k += 1
             case = {x: c[x] for x in ('L', 'sizes', 'disk', 'flips', 'single', 'pathkind', 'threads', 'paths',
                                       'cseed', 'dirname')}
+            case.update(origin=c.get('origin', 'loaded'), verify_as=c.get('verify_as', 'direct'),
+                        interval=c.get('interval', 0), clock=c.get('clock'))
+            pinned = c.get('clock') is not None
+            throttled = not pinned and c.get('interval', 0) > 0       # real clock, interval > 0
+            ctx.dist['origin:' + case['origin']] += 1
+            ctx.dist['verify_as:' + case['verify_as']] += 1
+            ctx.dist['interval:' + ('pinned clock' if pinned else str(case['interval']))] += 1
             if 'nocb' not in r:
                 raise RuntimeError(f'driver failure on {case}: {r}')
             states = sorted({(st.get('how') or st['k']) if isinstance(st, dict) else 'classic' for st in c['disk']
@@ -778,7 +950,21 @@ def evaluate(ctx, drv, cases):
                         observed['exc_type'] = m['error'].get('exc_type')
                 if len(problems) == 1 and problems[0].startswith('bad files reported more than once'):
                     observed['deviation'] = 'duplicate-report-only'
-                fid = ctx.violation('verify(): ' + '; '.join(problems[:3]), case,
+                callinfo = []
+                if case['interval']:
+                    callinfo.append(f'interval={case["interval"]}' + (f' with time_monotonic pinned to {case["clock"]}' if pinned else ''))
+                elif pinned:
+                    callinfo.append(f'interval=0 with time_monotonic pinned to {case["clock"]}')
+                if case['origin'] != 'loaded':
+                    callinfo.append({'path-attr': 'Torrent.path set to an intact original',
+                                     'created': 'torrent created from a path in this session',
+                                     'reread': 'torrent created, dumped and re-read',
+                                     'copy': 'copy() of a torrent created in this session',
+                                     'reassigned': 'torrent created from a path, path re-assigned'}[case['origin']])
+                if case['verify_as'] != 'direct':
+                    callinfo.append({'relative': 'relative path', 'symlink-top': 'through a symlink to the top directory',
+                                     'original': 'verifying Torrent.path itself'}[case['verify_as']])
+                fid = ctx.violation(f'verify({", ".join(callinfo)}): ' + '; '.join(problems[:3]), case,
                                     {'specOk': spec_ok, 'owed': r['owed'], 'must_report': r['must'],
                                      'mismatches': r['mismatches']},
                                     observed, MATCHERS)
@@ -803,8 +989,12 @@ def evaluate(ctx, drv, cases):
                 return etab.get((None, f))
             mcalls = [{'done': cl['done'], 'piece': cl['piece'],
                        'hash': None if cl['hash'] is None else common.sha1(_bytes_of(cl['hash'], now)),
-                       'exc': _norm_model_exc(cl['exc'], errno_of, cl['piece'])} for cl in r['calls']]
+                       'exc': _norm_model_exc(cl['exc'], errno_of, cl['piece'])}
+                      for cl in (r['callsG'] if pinned else r['calls'])]
             icalls = [{'done': cl['done'], 'piece': cl['piece'], 'hash': cl['hash'], 'exc': cl['exc']} for cl in calls]
+            if pinned and (r['nocbG'] != r['nocb'] or r['cbG'] != r['cb']):
+                ctx.machinery_error('the verdict of the model depends on the interval (contradicts '
+                                    'C02_interval_independent)', case)
             mn = dict(r['nocb'])
             if 'error' in mn:
                 mn['error'] = _norm_model_exc(mn['error'], errno_of, None)
@@ -818,7 +1008,28 @@ def evaluate(ctx, drv, cases):
             # without a callback the reader may run into the unreadable byte before the collector's
             # exception stops it: then Collector._finalize raises that ReadError instead
             alt = [{'error': {'kind': 'read', 'file': fault[0], 'errno': fault[1]}}] if fault else []
-            if c['threads'] == 1:
+            if throttled:
+                # real clock and interval > 0: which progress reports pass is a matter of timing; the
+                # verdict, the error reports (all of them, in order) and the final report are not
+                import json
+
+                def k2(cl):
+                    return json.dumps({**cl, 'hash': cl['hash'] and cl['hash'].hex()}, sort_keys=True)
+                mex = [cl for cl in mcalls if cl['exc']]
+                iex = [cl for cl in icalls if cl['exc']]
+                if c['threads'] != 1:
+                    mex = sorted(({**cl, 'done': 0} for cl in mex), key=k2)
+                    iex = sorted(({**cl, 'done': 0} for cl in iex), key=k2)
+                    progress_ok = {k2({**cl, 'done': 0}) for cl in icalls} <= {k2({**cl, 'done': 0}) for cl in mcalls}
+                else:
+                    progress_ok = {k2(cl) for cl in icalls} <= {k2(cl) for cl in mcalls}
+                possible = [cl['exc'] for cl in mcalls if cl['exc']]
+                final_ok = (not any(cl['done'] == r['pieces'] for cl in mcalls) or
+                            any(cl['done'] == r['pieces'] for cl in icalls))
+                same = (mc == icb and mex == iex and progress_ok and final_ok and
+                        (mn == inocb or inocb in alt or
+                         (c['threads'] != 1 and 'error' in inocb and inocb['error'] in possible)))
+            elif c['threads'] == 1:
                 same = ((mn == inocb or inocb in alt) and mc == icb and mcalls == icalls)
             else:
                 def key(cl):
@@ -830,7 +1041,7 @@ def evaluate(ctx, drv, cases):
                 same = (mc == icb and a == b and
                         (mn == inocb or inocb in alt or ('error' in inocb and inocb['error'] in possible)))
             if not same:
-                ctx.corr_break('c02.verifyfs', case,
+                ctx.corr_break('c02.verifycall', case,
                                {'nocb': mn, 'cb': mc, 'calls': [{**cl, 'hash': cl['hash'] and cl['hash'].hex()} for cl in mcalls][:12]},
                                {'nocb': inocb, 'cb': icb, 'calls': [{**cl, 'hash': cl['hash'] and cl['hash'].hex()} for cl in icalls][:12]})
 
@@ -857,6 +1068,12 @@ def run(ctx, drv):
         'the state of a path does not change during one verify() call (no race between exists(), getsize() and open())',
         'without a callback, when both an earlier error and an unreadable byte exist, either may be raised '
         '(the reader thread runs ahead of the collector)',
+        'history of the Torrent object: created / re-read / copied / path re-assigned through the public API where torf '
+        'can create the torrent of the case itself (multiples of 16 KiB, flat sorted names, no empty file); otherwise the '
+        '`_path` attribute of the object is set to an intact original (Torrent.path only returns that attribute)',
+        'reporting interval: with the real clock only the verdict, the error reports and the final report are compared '
+        'with the model (which progress reports pass is a matter of timing); with `time_monotonic` of torf._generate '
+        'pinned to planned values (one hasher thread) every call is compared',
     ]
     evaluate(ctx, drv, gen_cases(ctx))
     _order(ctx)
